@@ -381,7 +381,7 @@ func integerEqualitySite(site string) bool {
 		first = site[:i]
 	}
 	switch first {
-	case "goldilocks.(*Chip).MulAdd", "goldilocks.(*Chip).ReduceWithMaxBits", "goldilocks.(*Chip).RangeCheck":
+	case "goldilocks.(*Chip).MulAdd", "goldilocks.(*Chip).ReduceWithMaxBits", "goldilocks.(*Chip).RangeCheck", "verifier.(*CircuitFixed).Define":
 		return true
 	}
 	return false
